@@ -1015,17 +1015,56 @@ var _ uuid.UUID
 //@ func (*storage.partition).insert
 //@ props C11 C12
 //@ trust check lossless
+//@ ghost proposed int = 0
+//@ ghost pres interface{} = nil
+//@ ghost perr error = nil
+//@ at call partition).proposeAndWaitForCommit
+//@ set proposed = proposed + 1
+//@ set pres = $ret0
+//@ set perr = $ret1
+//@ end
 //@ requires [wf] pready(this) && !isnil(ctx)
 //@ requires [C12 dimension-checked] dimOK(this, len(value))
+//@ ensures [C11 not-loaded-is-error] old(this.raft) == nil ==> ret == RaftNotLoadedOnNodeErr && proposed == 0
+//@ ensures [C11 success-only-if-applied-ok] isnil(ret) ==> proposed == 1 && isnil(perr) && isnil(pres)
+//@ ensures [C11 proposal-error-is-answer] proposed == 1 && !isnil(perr) ==> ret == perr
+//@ ensures [C11 outcome-is-answer] proposed == 1 && isnil(perr) && !isnil(pres) ==> ret == pres
+//@ ensures [C11 at-most-one-proposal] proposed <= 1
 //@ modifies *
 //@ func (*storage.partition).update
 //@ props C11 C12
+//@ ghost proposed int = 0
+//@ ghost pres interface{} = nil
+//@ ghost perr error = nil
+//@ at call partition).proposeAndWaitForCommit
+//@ set proposed = proposed + 1
+//@ set pres = $ret0
+//@ set perr = $ret1
+//@ end
 //@ requires [wf] pready(this) && !isnil(ctx)
 //@ requires [C12 dimension-checked] dimOK(this, len(value))
+//@ ensures [C11 not-loaded-is-error] old(this.raft) == nil ==> ret == RaftNotLoadedOnNodeErr && proposed == 0
+//@ ensures [C11 success-only-if-applied-ok] isnil(ret) ==> proposed == 1 && isnil(perr) && isnil(pres)
+//@ ensures [C11 proposal-error-is-answer] proposed == 1 && !isnil(perr) ==> ret == perr
+//@ ensures [C11 outcome-is-answer] proposed == 1 && isnil(perr) && !isnil(pres) ==> ret == pres
+//@ ensures [C11 at-most-one-proposal] proposed <= 1
 //@ modifies *
 //@ func (*storage.partition).remove
 //@ props C11 C12
+//@ ghost proposed int = 0
+//@ ghost pres interface{} = nil
+//@ ghost perr error = nil
+//@ at call partition).proposeAndWaitForCommit
+//@ set proposed = proposed + 1
+//@ set pres = $ret0
+//@ set perr = $ret1
+//@ end
 //@ requires [wf] pready(this) && !isnil(ctx)
+//@ ensures [C11 not-loaded-is-error] old(this.raft) == nil ==> ret == RaftNotLoadedOnNodeErr && proposed == 0
+//@ ensures [C11 success-only-if-applied-ok] isnil(ret) ==> proposed == 1 && isnil(perr) && isnil(pres)
+//@ ensures [C11 proposal-error-is-answer] proposed == 1 && !isnil(perr) ==> ret == perr
+//@ ensures [C11 outcome-is-answer] proposed == 1 && isnil(perr) && !isnil(pres) ==> ret == pres
+//@ ensures [C11 at-most-one-proposal] proposed <= 1
 //@ modifies *
 
 // validation of a batch before it is proposed: nil means every id parses and (withValue) every vector has the dimension
